@@ -56,7 +56,10 @@ class C10(Prop):
                   "rendered bodies, and the scheduled-case clauses on the model (results vs ghost lists); (ii) absolute conservation "
                   "for concurrent schedules outside the open class C10-rebase-straddle (only sequential: C10_absolute_conservation); "
                   "(iii) idle-once suffix form is proved for a flusher that is between two counter flushes when the updates stop "
-                  "(C10_idle_once_suffix); a flush already in flight at that moment adds one more delta - argued, not proved. A first absolute racing a flush or another first absolute is the open finding C10-rebase-straddle. Histogram record racing a flush is only covered by the free-running stress (no value twice, none fabricated, "
+                  "(C10_idle_once_suffix); a flush already in flight at that moment adds one more delta - argued, not proved. A first absolute racing a flush or another first absolute is the open finding C10-rebase-straddle. The forwarder loop (forwarder/sync.rs Forwarder::run, incl. the lifetime of FlushState and the UDP send) is not modelled; it is "
+                  "exercised end to end by a real exporter built with DogStatsDBuilder against a harness UDP socket in both tiers (judged per key: "
+                  "sums, exactly one closing zero, gauge in every flush, histogram values once, timestamp iff Aggressive). "
+                  "Histogram record racing a flush is only covered by the free-running stress (no value twice, none fabricated, "
                   "never-sent values within recorders x drains = open finding C10-record-vs-flush-late-claim inherited from C05); the "
                   "model's histogram is a sequential bag. The "
                   "payload parser of vlib/c10.py is trusted for the spec verdict on outputs that differ from the model.")
@@ -215,10 +218,99 @@ class C10(Prop):
                 viol.append(("stress", "free-running stress (threads=%d incs=%d value=%d mode=%d): %s" % (t, n, v, mode, "; ".join(bad)),
                              dict(stress_line="X %d %d %d %d" % (t, n, v, mode), driver_out=line)))
         viol += self._hist_stress(ctx, core, big)
+        viol += self._e2e(ctx, core, big)
         ctx["coverage"]["stress_runs"] = len(confs)
         ctx["coverage"]["stress_increments"] = sum(t * n for t, n, _, _ in confs)
         ctx["coverage"]["stress_flushes"] = flushes
         ctx["coverage"]["stress_nonzero_deltas"] = nonzero
+        return viol
+
+    def _e2e(self, ctx, core, big):
+        """end to end through the REAL forwarder loop (forwarder/sync.rs Forwarder::run): an exporter built with the public
+        DogStatsDBuilder sends to a harness-owned UDP socket; scripted updates with idle windows of >= 5 flush intervals;
+        the datagrams are judged per key (sequence, not wall clock): counter deltas = 7 then exactly ONE zero, 10 then
+        exactly ONE zero (an optional zero before the first update is the registration zero); the gauge is in every flush
+        with its latest value; histogram values exactly once; |T iff Aggressive; names/tags as configured."""
+        import time as _time
+        confs = [(0, 0, 0, 0, 50), (1, 1, 1, 1, 50), (0, 1, 0, 1, 40)]
+        if big:
+            confs += [(1, 0, 1, 0, 60), (1, 1, 0, 0, 40)]
+        lines = ["E %d %d %d %d %d" % c for c in confs]
+        rc, outs, err = core.run_impl(ctx["binpath"], lines, timeout=120)
+        if rc != 0 or len(outs) != len(lines):
+            raise core.MachineryBroken("end-to-end driver failed: rc=%s %s" % (rc, err[-500:]))
+        now = int(_time.time())
+        viol, ndg = [], 0
+        for (aggr, pfx, lab, dist, iv), line in zip(confs, outs):
+            body = line.split(None, 1)[1] if " " in line else "-"
+            dgs = [] if body.strip() == "-" else [bytes.fromhex(x) for x in body.strip().split(",")]
+            ndg += len(dgs)
+            bad = []
+            name = lambda n: ("app." + n) if pfx else n
+            tags = "env:t" if lab else ""
+            cs, gs, hs = [], [], []
+            for d in dgs:
+                for ln in d.decode("utf-8", "replace").split("\n"):
+                    if not ln:
+                        continue
+                    f = ln.split("|")
+                    head = f[0].split(":")
+                    ty = f[1] if len(f) > 1 else "?"
+                    tg, ts = "", None
+                    for x in f[2:]:
+                        if x.startswith("#"):
+                            tg = x[1:]
+                        elif x.startswith("T"):
+                            ts = x[1:]
+                    if tg != tags:
+                        bad.append("unexpected tags in %r" % ln)
+                    if ty in ("c", "g"):
+                        if (ts is not None) != bool(aggr):
+                            bad.append("timestamp %s in %s mode: %r" % ("present" if ts else "absent", "Aggressive" if aggr else "Conservative", ln))
+                        elif ts is not None and not (ts.isdigit() and now - 3600 <= int(ts) <= now + 60):
+                            bad.append("implausible timestamp in %r" % ln)
+                    elif ts is not None:
+                        bad.append("timestamp on a histogram message %r" % ln)
+                    try:
+                        if head[0] == name("ec") and ty == "c" and len(head) == 2:
+                            cs.append(int(head[1]))
+                        elif head[0] == name("eg") and ty == "g" and len(head) == 2:
+                            gs.append(float(head[1]))
+                        elif head[0] == name("eh") and ty == ("d" if dist else "h"):
+                            hs += [float(v) for v in head[1:]]
+                        else:
+                            bad.append("unexpected message %r" % ln)
+                    except ValueError:
+                        bad.append("unparsable message %r" % ln)
+            seq = list(cs)
+            if seq and seq[0] == 0:
+                seq = seq[1:]           # registration zero (flush between register and the first increment)
+            toks = "".join("z" if v == 0 else "n" for v in seq)
+            import re as _re
+            m = _re.fullmatch(r"(n+)z(n+)z", toks)
+            if not m:
+                bad.append("counter messages %s: expected deltas adding up to 7, exactly one zero, deltas adding up to 10, exactly one zero" % cs)
+            else:
+                k = len(m.group(1))
+                if sum(seq[:k]) != 7 or sum(seq[k + 1:-1]) != 10:
+                    bad.append("counter deltas %s do not add up to the increments (7 then 10)" % cs)
+            g2 = list(gs)
+            if g2 and g2[0] == 0.0:
+                g2 = g2[1:]
+            k = 0
+            while k < len(g2) and g2[k] == 42.0:
+                k += 1
+            if k < 3 or len(g2) - k < 4 or any(v != -7.0 for v in g2[k:]):
+                bad.append("gauge messages %s: expected 42 in every flush, then -7 in every flush" % gs)
+            if sorted(hs) != [5.0, 6.0, 7.0]:
+                bad.append("histogram values received %s, recorded [5, 6, 7]" % sorted(hs))
+            if bad:
+                viol.append(("e2e", "end-to-end exporter (aggressive=%d prefix=%d labels=%d distributions=%d interval=%dms): %s"
+                             % (aggr, pfx, lab, dist, iv, "; ".join(bad[:4])),
+                             dict(e2e_line="E %d %d %d %d %d" % (aggr, pfx, lab, dist, iv),
+                                  datagrams=[d.decode("utf-8", "replace") for d in dgs][:80])))
+        ctx["coverage"]["e2e_rounds"] = len(confs)
+        ctx["coverage"]["e2e_datagrams"] = ndg
         return viol
 
     def _hist_stress(self, ctx, core, big):
